@@ -260,6 +260,17 @@ def rule_boundary(run, F, cfg):
     run.ob("C01.4.token-boundary", "tokens-next-to-wildcard-dropped", ok and star_next,
            "fast_tokenizer_no_regex pushes a token only after comparing the following and the preceding character "
            "with '*' (a token adjacent to a wildcard is a fragment)", site=t.loc(0), config=cfg)
+    # skip_first_token must guard EVERY push: the token that starts at offset 0 may also be the last one
+    n_p = 0
+    for b, tm in pushes:
+        n_p += 1
+        from analysis.guards import guarded_by_disjunction
+        guarded = guarded_by_disjunction(t, b, r"\(.* Ne 0\)$", 1, r"^arg:skip_first_token$", 0)
+        run.ob("C01.4.token-boundary", f"skip_first-guards-push#{n_p}", guarded,
+               "fast_tokenizer_no_regex: every token push is guarded by `start != 0 || !skip_first_token` — also the "
+               "final push, because a pattern's first token can be its last (`gif|`): the matcher only pins the right "
+               "end, so `gif` may be the tail of a longer URL token (`.../bigif`) and must not become the bucket key",
+               site=t.loc(b), config=cfg)
     mx = [b for b, i, s in t.statements() if s["k"] == "assign" and s["rv"]["k"] == "binop" and s["rv"]["op"] in ("Ge", "Gt", "Lt", "Le")
           and "TOKENS_MAX" in t.expr_rvalue(s["rv"], 2)]
     run.ob("C01.4.token-boundary", "token-limit", bool(mx), "the tokenizer stops at TOKENS_MAX tokens (the property's < 127 token premise)", config=cfg)
